@@ -246,6 +246,22 @@ class Adversary(Scheduling):
         pass
 
 
+class ReserveOnlyBatch(BatchProcessing):
+    """a user algorithm that reserves machines through Cluster.provision_batch_resources (BatchProcessing's policy) but
+    leaves the clean-up of the reservation to the Scheduler, as the Cluster documentation allows"""
+
+    def __repr__(self):
+        return "ReserveOnlyBatch"
+
+    def run(self, cluster, clock, workflow_plan, existing_schedule, task_pool):
+        real = cluster.release_batch_resources
+        cluster.release_batch_resources = lambda *a, **k: None
+        try:
+            return super().run(cluster, clock, workflow_plan, existing_schedule, task_pool)
+        finally:
+            cluster.release_batch_resources = real
+
+
 class StubStatic(Planning):
     """E6: a static plan with arbitrary machine assignment / est per task (stands in for the SHADOW planner)"""
 
@@ -293,6 +309,8 @@ def make_alg(a):
     if k == 'batch':
         return BatchProcessing(max_resource_partitions=a.get('parts', 1), min_resources_per_workflow=a.get('min', 1),
                                resource_split=a.get('split'))
+    if k == 'reserve_only':
+        return ReserveOnlyBatch(max_resource_partitions=a.get('parts', 1), min_resources_per_workflow=a.get('min', 1))
     if k == 'queue':
         return QueueProcessing()
     if k == 'dynamic':
@@ -425,7 +443,7 @@ def feasible(sc):
         if size >= sc['hot'] or size > sc['cold'] or o['rate'] > sc['hot_rate'] or o['dur'] < 1:
             return False
     a = sc['alg']
-    if a['kind'] == 'batch' and nm // a.get('parts', 1) < a.get('min', 1):
+    if a['kind'] in ('batch', 'reserve_only') and nm // a.get('parts', 1) < a.get('min', 1):
         return False
     return True
 
@@ -447,7 +465,7 @@ def build(sc):
         graphs = graphs * nobs
     delay = SeqDelay(sc['delays']) if sc.get('delays') else None
     STATE.clear()
-    STATE.update(batch=(sc['alg']['kind'] == 'batch'), parts=sc['alg'].get('parts', 1), sim=None,
+    STATE.update(batch=(sc['alg']['kind'] in ('batch', 'reserve_only')), parts=sc['alg'].get('parts', 1), sim=None,
                  obs_index={f'o{i + 1}': i for i in range(nobs)})
     gl = sc['graphs'] if len(sc['graphs']) > 1 else sc['graphs'] * nobs
     if sc['alg']['kind'] in ('dynamic', 'greedy') or sc.get('static'):
